@@ -6,6 +6,7 @@ FIX = [  # (substring of commit subject, property, key at the time, what failed)
  ('overlay replaces', 'C01', 'panic:overlayer.overlayStruct', 'non-nil user-declared *int/*[]string in the base (default or lower layer) panicked in overlayStruct'),
  ('deep copy follows', 'C03', 'crash:deepCopier.deepCopy', 'pointer/map reaching itself through an interface value overflowed the stack; typed nil pointer in an interface panicked'),
  ('Pointerify stops', 'C03', 'crash:ptrify.pointerify', 'cyclic interface-held default value made Pointerify recurse forever'),
+ ('Pointerify terminates on a template cycle that closes through a plain pointer field', 'C03', 'crash-stack-overflow:cycle-through-a-struct-value-held-in-an-interface', 'a := &A{}; a.I = B{PA: a} (a cycle through an interface holding a struct VALUE whose pointer field leads back) in the defaults: dials.Config died with a stack overflow in ptrify.pointerify'),
  ('deep copy terminates on a slice', 'C03', 'crash-stack-overflow:slice-reaching-itself-through-interface-values', 's := make([]any,1); s[0]=s in a default or source value overflowed the stack in deepCopySlice'),
  ('deep copy terminates on a typed slice', 'C03', 'crash-stack-overflow:slice-reaching-itself-through-struct-values', 'type T struct{ID int; Vals []T}; v.Vals[0].Vals = v.Vals (a typed slice reaching itself through its own by-value element) in a default or source value overflowed the stack in deepCopySlice'),
  ('deep copy keeps one copy of a node referenced through plain and defined pointer types', 'C03', 'split:ptr:deepcopy:plain-and-defined-pointer-to-one-node', 'type Ref *Node; n := &Node{}; Cfg{A: n /* *Node */, B: n /* Ref */, C: n /* *Node */}: the result had A != C although identical in the input (second copy made for the Ref-typed reference, registerPair then overwrote the *Node memo entry)'),
